@@ -280,12 +280,69 @@ package gomatrixserverlib
 //@   ensures iff: (err == nil) <==> (!stMemberErr(a.provider, event.SenderID()) && redactSpec(*a, event))
 //@   assigns nothing
 
+// plParses / plContent name "NewPowerLevelContentFromEvent accepts" / "what it returns" (a function of the event);
+// what the function does is proved: the defaults are set first, the event's own version selects the parser, the
+// parser gets the event's content and the result variable, a parser error is an error
 //@ func NewPowerLevelContentFromEvent
-//@   trusted
+//@   property C07, C08, C18:safety
 //@   requires event != nil
-//@   ensures parses: (err == nil) <==> plParses(ref(event))
-//@   ensures content: err == nil ==> c == plContent(event)
+//@   defines parses: (err == nil) <==> plParses(ref(event))
+//@   defines content: err == nil ==> c == plContent(event)
+//@   ensures defaults-first: called(Defaults)
+//@   ensures unknown-version-is-an-error: (called(GetRoomVersion) && ret(GetRoomVersion, 1) != nil) ==> err != nil
+//@   ensures parser-error-is-an-error: (called(ParsePowerLevels) && ret(ParsePowerLevels) != nil) ==> err != nil
+//@   ensures parsed-on-success: err == nil ==> called(ParsePowerLevels)
+//@   calls GetRoomVersion@root the-events-own-version: verStr == root_event.Version()
+//@   calls ParsePowerLevels@root content-into-the-defaulted-result: called(Defaults) && str(contentBytes) == str(root_event.Content()) && c.Users == nil && c.Events == nil
 //@   assigns nothing
+
+// lenient parser (room versions 1-9): every scalar level present in the content replaces the default, absent
+// ones keep it; every entry of users / events / notifications is copied under its own key
+//@ func parsePowerLevels
+//@   property C07, C08, C18:safety
+//@   requires c != nil && c.Users == nil && c.Events == nil
+//@   ensures invite: result == nil ==> c.Invite == ((jhas(str(contentBytes), "invite") && jfield(str(contentBytes), "invite", levelJSONValue).exists) ? jfield(str(contentBytes), "invite", levelJSONValue).value : old(c.Invite))
+//@   ensures ban: result == nil ==> c.Ban == ((jhas(str(contentBytes), "ban") && jfield(str(contentBytes), "ban", levelJSONValue).exists) ? jfield(str(contentBytes), "ban", levelJSONValue).value : old(c.Ban))
+//@   ensures kick: result == nil ==> c.Kick == ((jhas(str(contentBytes), "kick") && jfield(str(contentBytes), "kick", levelJSONValue).exists) ? jfield(str(contentBytes), "kick", levelJSONValue).value : old(c.Kick))
+//@   ensures redact: result == nil ==> c.Redact == ((jhas(str(contentBytes), "redact") && jfield(str(contentBytes), "redact", levelJSONValue).exists) ? jfield(str(contentBytes), "redact", levelJSONValue).value : old(c.Redact))
+//@   ensures users-default: result == nil ==> c.UsersDefault == ((jhas(str(contentBytes), "users_default") && jfield(str(contentBytes), "users_default", levelJSONValue).exists) ? jfield(str(contentBytes), "users_default", levelJSONValue).value : old(c.UsersDefault))
+//@   ensures state-default: result == nil ==> c.StateDefault == ((jhas(str(contentBytes), "state_default") && jfield(str(contentBytes), "state_default", levelJSONValue).exists) ? jfield(str(contentBytes), "state_default", levelJSONValue).value : old(c.StateDefault))
+//@   ensures events-default: result == nil ==> c.EventsDefault == ((jhas(str(contentBytes), "events_default") && jfield(str(contentBytes), "events_default", levelJSONValue).exists) ? jfield(str(contentBytes), "events_default", levelJSONValue).value : old(c.EventsDefault))
+//@   ensures users: (result == nil && jhas(str(contentBytes), "users")) ==> (forall u string :: u in jfield(str(contentBytes), "users", "map[string]levelJSONValue") ==> (u in c.Users && c.Users[u] == get(jfield(str(contentBytes), "users", "map[string]levelJSONValue"), u).value))
+//@   ensures events: (result == nil && jhas(str(contentBytes), "events")) ==> (forall t string :: t in jfield(str(contentBytes), "events", "map[string]levelJSONValue") ==> (t in c.Events && c.Events[t] == get(jfield(str(contentBytes), "events", "map[string]levelJSONValue"), t).value))
+//@   ensures notifications: (result == nil && jhas(str(contentBytes), "notifications")) ==> (forall n string :: n in jfield(str(contentBytes), "notifications", "map[string]levelJSONValue") ==> (n in c.Notifications && c.Notifications[n] == get(jfield(str(contentBytes), "notifications", "map[string]levelJSONValue"), n).value))
+//@   loop 1: invariant forall u string :: seen(1)[u] ==> (u in c.Users && c.Users[u] == get(content.UserLevels, u).value)
+//@   loop 1: invariant c.Users == nil || c.Users != c.Notifications
+//@   loop 2: invariant c.Users == nil || c.Users != c.Notifications
+//@   loop 2: invariant forall t string :: seen(2)[t] ==> (t in c.Events && c.Events[t] == get(content.EventLevels, t).value)
+//@   loop 2: invariant c.Events == nil || (c.Events != c.Users && c.Events != c.Notifications)
+//@   loop 2: invariant forall u string :: u in content.UserLevels ==> (u in c.Users && c.Users[u] == get(content.UserLevels, u).value)
+//@   loop 3: invariant forall n string :: seen(3)[n] ==> (n in c.Notifications && c.Notifications[n] == get(content.NotificationLevels, n).value)
+//@   loop 3: invariant c.Notifications == nil || ((c.Users == nil || c.Notifications != c.Users) && (c.Events == nil || c.Notifications != c.Events))
+//@   loop 3: invariant forall u string :: u in content.UserLevels ==> (u in c.Users && c.Users[u] == get(content.UserLevels, u).value)
+//@   loop 3: invariant forall t string :: t in content.EventLevels ==> (t in c.Events && c.Events[t] == get(content.EventLevels, t).value)
+
+//@ func (*levelJSONValue).assignIfExists
+//@   property C07, C08, C18:safety
+//@   requires v != nil && to != nil
+//@   ensures assigned-iff-present: *to == (v.exists ? v.value : old(*to))
+//@   assigns *to
+
+// strict parser (room versions 10+): the content is decoded straight into the defaulted levels
+//@ func parseIntegerPowerLevels
+//@   property C07, C08, C18:safety
+//@   requires c != nil
+//@   calls Unmarshal@root the-content-into-the-result: str(data) == str(root_contentBytes) && v.(*PowerLevelContent) == root_c
+//@   ensures decode-error-is-an-error: (ret(Unmarshal) != nil) <==> (result != nil)
+
+// a level written as an integer, as a string holding an integer (surrounding white space ignored) or as a
+// float (truncated); anything else is an error; a decoded level is marked as present
+//@ func (*levelJSONValue).UnmarshalJSON
+//@   property C07, C08, C18:safety
+//@   requires v != nil
+//@   ensures present: result == nil ==> v.exists
+//@   calls ParseInt@root decimal-64-bit: base == 10 && bitSize == 64
+//@   calls ParseFloat@root 64-bit: bitSize == 64 && s == string(root_data)
 
 //@ func (*PowerLevelContent).Defaults
 //@   property C07, C18:safety
@@ -2469,11 +2526,6 @@ package gomatrixserverlib
 //@   property C18:safety
 //@   inline
 //@   requires e != nil
-
-//@ func (*levelJSONValue).UnmarshalJSON
-//@   property C18:safety
-//@   inline
-//@   requires v != nil
 
 //@ func (*stateResV2ConflictedOtherHeap).Push
 //@   property C18:safety
